@@ -796,3 +796,22 @@ def inline_simple_calls(prog: T.Optional[Program], fn: FunctionInfo, expr: ast.A
             out = Sub(mapping).visit(copy.deepcopy(be))
             return Inl(self.d - 1).visit(out)
     return ast.fix_missing_locations(Inl(depth).visit(copy.deepcopy(expr)))
+
+
+# --------------------------------------------------------------------------- flag loops
+def any_loop(fn: FunctionInfo, var: str) -> T.Optional[ast.AST]:
+    """Recognise   var = False; for x in ITER: if TEST: var = True [; break]   as  any(TEST for x in ITER)."""
+    defs = local_defs(fn, var)
+    consts = [(st, v) for st, v in defs if isinstance(v, ast.Constant) and isinstance(v.value, bool)]
+    if len(defs) != 2 or len(consts) != 2 or {v.value for _s, v in consts} != {True, False}:
+        return None
+    true_stmt = [st for st, v in consts if v.value is True][0]
+    for loop in walk_no_nested(fn.node):
+        if isinstance(loop, ast.For) and len(loop.body) == 1 and isinstance(loop.body[0], ast.If) and not loop.orelse:
+            iff = loop.body[0]
+            body = [b for b in iff.body if not isinstance(b, ast.Break)]
+            if len(body) == 1 and body[0] is true_stmt and not iff.orelse:
+                gen = ast.GeneratorExp(elt=iff.test, generators=[ast.comprehension(target=loop.target, iter=loop.iter, ifs=[], is_async=0)])
+                return ast.fix_missing_locations(ast.Call(func=ast.Name(id="any", ctx=ast.Load()), args=[gen], keywords=[]))
+    return None
+
